@@ -143,6 +143,7 @@ def _concat_rev(r, a):
 METHODS = {
     "len": ("{r}.len()", _s(M.str_len)),
     "index": ("{r}[{a}]", _s(M.str_index)),
+    "index_then_len": ("({r}[{a}]).len()", _s(M.str_index_then_len)),
     "substring": ("{r}.substring({a}, {b})", _s(M.str_substring)),
     "contains": ("{r}.contains({a})", _s(M.str_contains)),
     "index_of": ("{r}.index_of({a})", _s(M.str_index_of)),
@@ -188,11 +189,23 @@ def spec_of(probe):
 
 
 def probe_source(probe, k):
-    """(lines, expression) for probe number k of a program (all names carry the probe number)."""
+    """(lines, expression) for probe number k of a program (all names carry the probe number).  Probes whose origin
+    ends in `:inline` write a string receiver and non-negative int arguments as LITERALS inside the expression (the
+    compiler may evaluate it), `:const` binds the receiver with `const`."""
     method, recv, args = probe[0], probe[1], probe[2]
+    form = probe[3].split(":")[1] if ":" in probe[3] else "var"
     names = {"r": "p%dr" % k}
-    lines = decls(names["r"], recv[0], recv[1])
+    lines = []
+    if form == "inline" and recv[0] == "str":
+        names["r"] = lit_str(recv[1])
+    elif form == "const" and recv[0] == "str":
+        lines.append("const %s = %s" % (names["r"], lit_str(recv[1])))
+    else:
+        lines = decls(names["r"], recv[0], recv[1])
     for slot, a in zip("ab", args):
+        if form in ("inline", "const") and a[0] == "int" and a[1] >= 0:
+            names[slot] = str(a[1])
+            continue
         names[slot] = "p%d%s" % (k, slot)
         lines += decls(names[slot], a[0], a[1])
     expr = METHODS[method][0].format(**names)
@@ -530,6 +543,16 @@ def catalogue(thorough=False):
         for i in idx + [2147483647, -2147483648]:
             add("index", r, I(i))
             add("split", r, I(i))
+        # the same built-ins on a LITERAL / `const` receiver with literal arguments (the compiler may evaluate them)
+        for form in ("cat:inline", "cat:const"):
+            P.append(("len", r, (), form))
+            P.append(("reverse", r, (), form))
+            for i in range(0, len(s) + 1):
+                P.append(("index", r, (I(i),), form))
+                P.append(("index_then_len", r, (I(i),), form))
+                P.append(("substring", r, (I(0), I(i)), form))
+        for i in range(0, len(s) + 1):
+            add("index_then_len", r, I(i))
         # bigint indices (the index may be int or bigint): in range, and values whose low 64 bits are in range
         n_ = len(s)
         for i in sorted(set([0, 1, max(n_ - 1, 0), n_, -1, 2 ** 64, 2 ** 64 + 1, 2 ** 64 + max(n_ - 1, 0), 2 ** 65,
@@ -734,6 +757,9 @@ def rnd_probe(rng):
     m = rng.choice(STATEMENT_METHODS)
     if m in ("len", "reverse", "chars"):
         return (m, S(rnd_str(rng, 16)), (), "rnd")
+    if m == "index_then_len":
+        s = rnd_str(rng)
+        return (m, S(s), (I(rng.randint(0, len(s) + 1)),), "rnd")
     if m in ("index", "split"):
         s = rnd_str(rng)
         return (m, S(s), (I(rng.randint(-2, len(s.encode()) + 2)),), "rnd")
